@@ -9,6 +9,34 @@ TRUST = ("Trusted base: clang 14 front end and its debug info, the LLVM-14 IR re
          "the rule tables documented in DESIGN.md. ")
 
 CLAIMS = {
+    "C02": dict(
+        category="other",
+        technique="static analysis: guard-dominance (CRC gate), same-block fold pairing, path rules (raw-byte tests, exactly-one dispatch, CRC-independent return), interval abstract interpretation (bounds, progress)",
+        text=("Decides: dispatch only on the 'CRC accumulator == 0' edge; every stored packet byte folded into the accumulator; delimiter/escape tests see the raw byte; "
+              "receiver un-escapes with 0x20 and tests 0xFE/0xFD; each split message dispatched exactly once on every path; a CRC failure returns like a good packet; "
+              "packet buffer index bounded; split loop advances by >= 1 byte. Stream order, field equality and round-trip with the sender are not decided."),
+        note=TRUST + "Interval engine assumptions: 64-bit counters do not wrap; allocation failure out of scope.",
+        design="DESIGN.md section 4, C02",
+    ),
+    "C15": dict(
+        category="other",
+        technique="static analysis: dispatcher path summaries (ack once, to sender, with announced version, flushed), field writer roles + write-lock mode, guard-dominance of board-addressed sends by the connected flag, drain-before-restart path rule",
+        text=("Decides: node-new/lost dispatch updates the table once and acknowledges once to the sender with the announced version and flushes; connected/node_addr have fixed "
+              "writer roles and are written under the boards write lock; an address is assigned only where the board is marked connected; every message addressed to a board's "
+              "stored address is sent behind a test of that board's connected flag; a restart of the enumeration empties the pending sub-interface list first. Correctness for all "
+              "trees and event sequences is not decided."),
+        note=TRUST,
+        design="DESIGN.md section 4, C15",
+    ),
+    "C19": dict(
+        category="other",
+        technique="static analysis: dispatcher path summaries per report type, guard provenance (secack_on of the sender's board), argument provenance (report bytes in order), who-may-call, who-may-write",
+        text=("Decides for the four occupancy report types: mirror sent exactly on the paths where the sender board's secack_on flag is true, at most once, of the matching type, with the "
+              "sender's address and the report's leading data bytes in order, followed by a flush; mirror encoders have no other caller; secack_on written only by the board parser "
+              "(false at creation, true under feature 0x03 with value > 0). Delivery under stall/budget exhaustion is not decided."),
+        note=TRUST,
+        design="DESIGN.md section 4, C19",
+    ),
     "C01": dict(
         category="other",
         technique="static analysis: lockset/region discipline, escape-guard and CRC-fold data-flow rules over the flush routine, reference CRC table, stale-index and capacity-guard path rules",
